@@ -19,7 +19,7 @@ from ..model import exactnum as X
 ID = 'C08'
 
 BOUNDS = {
-    'quick': dict(LITS='reduced', TRIPLES=10),
+    'quick': dict(LITS='reduced', TRIPLES=12),
     'thorough': dict(LITS='full', TRIPLES=34),
 }
 
@@ -244,7 +244,8 @@ def main(tier, seed, t0):
     step = 4
     for i in range(0, len(allv), step):
         tasks.append(('pairs', allv[i:i + step], allv))
-    red = (['0.1', '0.2', '0.3', '1', '3', '10', '0.5', '9.99', '35.05', '0'] + long_[:8] + lits[30:60])[:b['TRIPLES']]
+    red = (['0.1', '0.2', '0.3', '1', '0.4', '9' * 28, '0.' + '0' * 27 + '4', '1.809', '0.8683873806956042304114426942', '6', '3', '10', '0.5',
+            '9.99', '35.05', '0'] + long_[:8] + lits[30:60])[:b['TRIPLES']]
     for a in red:
         tasks.append(('triples', [a], red))
     for i in range(0, len(allv), 8):
